@@ -16,6 +16,7 @@ from ..faults import Proxy
 from ..ref import padding as RP
 
 META = {
+    "thorough_scale": 3,
     "level": "exploration",
     "rule": (
         "Generated draws in both APIs (new: instrumented glyph-grid renderables, still / 2-5 frames / INDEFINITE "
